@@ -1,4 +1,4 @@
 SPECIFICATION Spec
-CONSTANTS Kinds = {"K1", "K2"}  Ids = {1}  Ctrls = {"u", "q"}  Cfg <- CfgF  Alt <- AltF  Cached = {}  MaxWrites = 4  MaxFaults = 0  MapTo <- MapSame
+CONSTANTS Kinds = {"K1", "K2"}  Ids = {1}  Ctrls = {"u", "q"}  Cfg <- CfgF  Alt <- AltF  Cached = {}  MaxWrites = 4  MaxFaults = 0  Noops = FALSE  MapTo <- MapSame
 INVARIANTS NoLostWakeup MappedReachesPrimaries CacheCoherentWhenQuiet
 CHECK_DEADLOCK FALSE
